@@ -350,3 +350,90 @@ Example C06_nonvacuous_refresh :
   arrA s = [-1024; -4096] /\ arrB s = [-4096; -1024] /\
   arrA (prun [1; 0]%nat (compiled [1; 0]%nat [-1024; 256]) [PSetHf 1 (-4096)]) = [-1024; 256].
 Proof. repeat split; reflexivity. Qed.
+
+(* ---------- Stream.copy: every copy is its own (state, memo) pair ---------- *)
+(* A program makes streams by copying (of originals, of copies), reads H or any other memoised property and
+   changes T / flows / phase through any of them in any order.  Then: every stream ends in the state the
+   memo-free heap ends in (no stream is changed through another; a copy starts in the state of its source),
+   every H that was read is the enthalpy of the state of the stream it was read FROM, all memos stay consistent. *)
+Theorem C06_copies_transparent : forall (hspec : nat -> vec -> Q -> Q),
+  (forall ph z z' T T', T == T' -> veqb z z' = true -> hspec ph z T == hspec ph z' T') ->
+  forall ops h, hinv hspec h ->
+  map fst (fst (shrun hspec h ops)) = fst (shrun_ref hspec (map fst h) ops) /\
+  Forall2 Qeq (snd (shrun hspec h ops)) (snd (shrun_ref hspec (map fst h) ops)) /\
+  hinv hspec (fst (shrun hspec h ops)).
+Proof. exact shrun_transparent. Qed.
+Print Assumptions C06_copies_transparent.
+
+(* what must NOT change: an operation through stream i leaves every other stream and its memo as they were *)
+Theorem C06_copies_frame : forall hspec h i o j, j <> i ->
+  nth_error (fst (shstep hspec h (HOn i o))) j = nth_error h j.
+Proof. exact shstep_frame. Qed.
+Print Assumptions C06_copies_frame.
+
+(* copy(): all existing streams and memos as they were, the new stream has the state of its source and an
+   EMPTY memo of its own, nothing is read *)
+Theorem C06_copy_fresh_memo : forall hspec h i s c, nth_error h i = Some (s, c) ->
+  (forall j, (j < length h)%nat -> nth_error (fst (shstep hspec h (HCopyS i))) j = nth_error h j) /\
+  nth_error (fst (shstep hspec h (HCopyS i))) (length h) = Some (s, cache0) /\
+  snd (shstep hspec h (HCopyS i)) = [].
+Proof. exact shstep_copy. Qed.
+Print Assumptions C06_copy_fresh_memo.
+
+(* adiabatic_reaction on stream i of such a heap, for any reaction step and any heat input, after ANY such
+   program starting from one stream: on a normal return Hnet of stream i, evaluated memo-free, is Hnet of the
+   state the memo-free run left it in plus Q, its flows are those of the reaction step, and no other stream moved *)
+Theorem C06_adiabatic_after_copies : forall (hspec : nat -> vec -> Q -> Q),
+  (forall ph z z' T T', T == T' -> veqb z z' = true -> hspec ph z T == hspec ph z' T') ->
+  forall (solveP : nat -> vec -> Q -> res Q) (hf : vec),
+  (forall ph m h t, solveP ph m h = Ok t -> HfunC hspec ph m t == h) ->
+  forall ops s0 is_stream callf i Qin h',
+  hadiabatic hspec solveP hf is_stream callf (fst (shrun hspec [(s0, cache0)] ops)) i Qin = (None, h') ->
+  exists s s', nth_error (fst (shrun_ref hspec [s0] ops)) i = Some s /\ nth_error (map fst h') i = Some s' /\
+    HN hspec hf s' == HN hspec hf s + Qin /\ callf (pmol s) = (None, pmol s') /\
+    (forall j, j <> i -> nth_error (map fst h') j = nth_error (fst (shrun_ref hspec [s0] ops)) j).
+Proof. exact adiabatic_after_copies. Qed.
+Print Assumptions C06_adiabatic_after_copies.
+
+(* the same from any heap with consistent memos, memos included in the frame *)
+Theorem C06_adiabatic_heap : forall (hspec : nat -> vec -> Q -> Q),
+  (forall ph z z' T T', T == T' -> veqb z z' = true -> hspec ph z T == hspec ph z' T') ->
+  forall (solveP : nat -> vec -> Q -> res Q) (hf : vec),
+  (forall ph m h t, solveP ph m h = Ok t -> HfunC hspec ph m t == h) ->
+  forall is_stream callf h i Qin h', hinv hspec h ->
+  hadiabatic hspec solveP hf is_stream callf h i Qin = (None, h') ->
+  exists s c s' c', nth_error h i = Some (s, c) /\ nth_error h' i = Some (s', c') /\
+    HN hspec hf s' == HN hspec hf s + Qin /\ callf (pmol s) = (None, pmol s') /\
+    (forall j, j <> i -> nth_error h' j = nth_error h j) /\ hinv hspec h'.
+Proof. exact hadiabatic_lemma. Qed.
+Print Assumptions C06_adiabatic_heap.
+
+(* the isothermal call through stream i: its flows become those of the reaction step, T and phase stay, its memo
+   is untouched (the key no longer matches), no other stream or memo moves; returning or raising *)
+Theorem C06_isothermal_heap : forall callf h i e h',
+  hisothermal callf h i = (e, h') -> (i < length h)%nat ->
+  exists s c, nth_error h i = Some (s, c) /\
+    nth_error h' i = Some (mkP (snd (callf (pmol s))) (pT s) (pph s), c) /\ e = fst (callf (pmol s)) /\
+    (forall j, j <> i -> nth_error h' j = nth_error h j).
+Proof. exact hisothermal_lemma. Qed.
+Print Assumptions C06_isothermal_heap.
+
+(* non-vacuity: the feed is read, copied, the copy heated and read, the feed read again, a second copy made and
+   read: the reads are those of feed, heated copy, feed, feed *)
+Example C06_nonvacuous_copies :
+  let ops := [HOn 0 SReadH; HCopyS 0; HOn 1 (SSetT 400); HOn 1 SReadH; HOn 0 SReadH; HCopyS 0; HOn 2 SReadH] in
+  let s0 := mkP [4; 64; 64; 64; 64; 64] 350 2 in
+  snd (shrun (stub_hspec exCn) [(s0, cache0)] ops) = snd (shrun_ref (stub_hspec exCn) [s0] ops) /\
+  length (fst (shrun (stub_hspec exCn) [(s0, cache0)] ops)) = 3%nat /\
+  (exists a b, snd (shrun (stub_hspec exCn) [(s0, cache0)] ops) = [a; b; a; a] /\ ~ a == b).
+Proof.
+  split; [vm_compute; reflexivity|]. split; [vm_compute; reflexivity|].
+  eexists. eexists. split; [vm_compute; reflexivity|]. intros H. vm_compute in H. discriminate.
+Qed.
+
+Example C06_nonvacuous_adiabatic_heap :
+  exists h', hadiabatic (stub_hspec exCn) (stubSolveP exCn []) exHf true (call_stream exMW (Simple false (Single exR)))
+               (fst (shrun (stub_hspec exCn) [(mkP [4; 64; 64; 64; 64; 64] 350 2, cache0)]
+                          [HOn 0 SReadH; HCopyS 0; HOn 1 (SSetT 400); HOn 1 SReadH; HCopyS 0])) 2 1024 = (None, h')
+             /\ length h' = 3%nat.
+Proof. eexists. split; vm_compute; reflexivity. Qed.
